@@ -13,7 +13,7 @@ resf = os.path.join(V, "seeded", "RESULTS.json")
 results = json.load(open(resf)) if os.path.exists(resf) else {}
 for sid in sorted(os.listdir(os.path.join(V, "seeded"))):
     d = os.path.join(V, "seeded", sid)
-    if not os.path.isdir(d) or not rx.search(sid):
+    if not os.path.isdir(d) or sid.startswith("_") or not rx.search(sid):
         continue
     meta = json.load(open(os.path.join(d, "meta.json")))
     prop = meta.get("property", sid.split("-")[0])
@@ -50,4 +50,7 @@ for sid in sorted(os.listdir(os.path.join(V, "seeded"))):
     finally:
         subprocess.run(["git", "-C", "/repo", "worktree", "remove", "--force", wt], capture_output=True)
         shutil.rmtree(wt, ignore_errors=True)
-        json.dump(results, open(resf, "w"), indent=1, sort_keys=True)
+        cur = json.load(open(resf)) if os.path.exists(resf) else {}
+        if sid in results:
+            cur[sid] = results[sid]
+        json.dump(cur, open(resf, "w"), indent=1, sort_keys=True)
